@@ -1622,6 +1622,11 @@ class Data(BaseCartesianData):
         for comp, data in mapping.items():
             if isinstance(comp, ComponentID):
                 comp = self.get_component(comp)
+            if isinstance(comp, (DerivedComponent, CoordinateComponent)):
+                # These components do not hold an array: their ``_data`` is
+                # the data set they are computed from
+                raise ValueError("Cannot change the values of a derived or "
+                                 "coordinate component")
             data = np.asarray(data)
             if data.shape != self.shape:
                 raise ValueError("Cannot change shape of data")
